@@ -202,6 +202,9 @@ def stores_to_field(fn, field, owner=None):
                 if r_["k"] == "use" and r_["op"]["k"] in ("copy", "move") and not r_["op"]["p"]["proj"]:
                     l_ = r_["op"]["p"]["l"]
                     continue
+                if r_["k"] in ("ref", "rawptr") and [e_["k"] for e_ in r_["p"]["proj"]] == ["deref"]:
+                    l_ = r_["p"]["l"]          # a reborrow `&mut *r`
+                    continue
                 if r_["k"] in ("ref", "rawptr"):
                     fe_ = [e_ for e_ in r_["p"]["proj"] if e_["k"] == "field"]
                     return bool(fe_) and fe_[-1].get("name") == field and fe_[-1].get("of") == owner
